@@ -207,34 +207,22 @@ example : budgetOk 1 false (startComment [45, 45, 104, 105] ++
 
 /-! ### `Block::remove_statement`: the comments of a removed statement -/
 
-/-- When the next statement's first token has no leading trivia of its own, the loop of
-`remove_statement` produces the comments in order with the re-created gaps between them. -/
+/-- The comments of the removed statement come, in order and with the re-created gaps between
+them, before the leading trivia the next token already had — for any number of comments, any
+gaps, any own trivia. (This was the full statement `reattach_inorder_full`, false before /repo
+fix 'remove_statement offset' (finding F34): `offset += gap` made the index overshoot.) -/
+theorem reattach_inorder_full (cs own : List RTrivia) : reattach cs own = interleave none cs ++ own := by
+  have := reattachLoop_inorder cs [] own 0 0 none (by simp)
+  simpa [reattach] using this
+
 theorem reattach_inorder (cs : List RTrivia) : reattach cs [] = interleave none cs := by
-  have := reattachLoop_inorder cs [] 0 0 none (by simp)
-  simpa [reattach] using this
+  simpa using reattach_inorder_full cs []
 
-/-- Full-strength statement about the ORDER: the comments of the removed statement come, in
-order, before the leading trivia the next token already had. -/
-def reattach_inorder_full : Prop :=
-  ∀ (cs own : List RTrivia), reattach cs own = interleave none cs ++ own
-
-/-- False of the code as it is (finding F34): `offset += gap`. Witness: comments on lines 2 and
-4 (gap 2) and on line 7, next statement with its own comment. -/
-theorem reattach_inorder_full_false : ¬ reattach_inorder_full := by
-  intro h
-  have := h [⟨true, [45, 45, 97], some 2⟩, ⟨true, [45, 45, 98], some 4⟩, ⟨true, [45, 45, 116], some 7⟩]
-    [⟨true, [45, 45, 111], some 8⟩, ⟨false, [10], some 8⟩]
-  exact absurd this (by decide)
-
-/-- Partial theorem: when no two consecutive comments of the removed statement are two or more
-lines apart the order is kept, whatever the next token's own trivia. -/
-theorem reattach_inorder_small_gaps (cs own : List RTrivia) (h : smallGaps none cs = true) :
-    reattach cs own = interleave none cs ++ own := by
-  have := reattachLoop_small_gaps cs [] own 0 0 none (by simp) h
-  simpa [reattach] using this
-
-example : smallGaps none [⟨true, [45, 45, 97], some 2⟩, ⟨true, [45, 45, 98], some 3⟩,
-    ⟨true, [45, 45, 116], some 4⟩] = true := by decide
+/-- regression: the F34 witness (comments on lines 2, 4, 7; next statement with its own comment) -/
+example : reattach [⟨true, [45, 45, 97], some 2⟩, ⟨true, [45, 45, 98], some 4⟩, ⟨true, [45, 45, 116], some 7⟩]
+    [⟨true, [45, 45, 111], some 8⟩, ⟨false, [10], some 8⟩] =
+    [⟨true, [45, 45, 97], some 2⟩, gapTrivia 2, ⟨true, [45, 45, 98], some 4⟩, gapTrivia 3,
+     ⟨true, [45, 45, 116], some 7⟩, ⟨true, [45, 45, 111], some 8⟩, ⟨false, [10], some 8⟩] := by decide
 
 /-- Whatever the insertion positions (the index overshoots after a gap of two or more), the
 newlines of the resulting leading trivia are those of the old trivia, those inside the kept
